@@ -13,6 +13,7 @@ import (
 
 	baseerrors "github.com/grailbio/base/errors"
 	"github.com/grailbio/base/retry"
+	"github.com/grailbio/bigmachine"
 	"github.com/grailbio/bigmachine/testsystem"
 	"github.com/grailbio/bigslice"
 	"github.com/grailbio/bigslice/exec"
@@ -42,6 +43,7 @@ type e2eConfig struct {
 	fastKeepalive bool
 	delayMethod string // DLY<ms>:<Method>: every call of that worker RPC is held back for <ms> before it is served
 	delayMs     int
+	nomach      bool // NOMACH: the cluster never delivers a machine (System.Start blocks)
 }
 
 func parseConfig(s string) e2eConfig {
@@ -55,6 +57,8 @@ func parseConfig(s string) e2eConfig {
 			c.mc = true
 		case t == "NOSHUF":
 			c.noshuf = true
+		case t == "NOMACH":
+			c.nomach = true
 		case t == "KA":
 			c.fastKeepalive = true
 		case strings.HasPrefix(t, "DLY"):
@@ -132,7 +136,11 @@ func startSession(cfg e2eConfig) *e2eSession {
 			s.sys.KeepaliveTimeout = 120 * time.Second
 			s.sys.KeepaliveRpcTimeout = 60 * time.Second
 		}
-		opts = append(opts, exec.Bigmachine(s.sys), exec.MaxLoad(float64(cfg.load)/100))
+		var system bigmachine.System = s.sys
+		if cfg.nomach {
+			system = &stalledSystem{s.sys}
+		}
+		opts = append(opts, exec.Bigmachine(system), exec.MaxLoad(float64(cfg.load)/100))
 		if cfg.mc {
 			opts = append(opts, exec.MachineCombiners)
 		}
@@ -145,6 +153,14 @@ func startSession(cfg e2eConfig) *e2eSession {
 	}
 	s.sess = exec.Start(opts...)
 	return s
+}
+
+// stalledSystem is a cluster that is out of capacity: Start never delivers a machine.
+type stalledSystem struct{ *testsystem.System }
+
+func (s *stalledSystem) Start(ctx context.Context, n int) ([]*bigmachine.Machine, error) {
+	<-ctx.Done()
+	return nil, ctx.Err()
 }
 
 func (s *e2eSession) close() {
